@@ -37,8 +37,9 @@ class Ctx:
 
 # ---------------------------------------------------------------- building
 
-def overlay_file(scratch):
-    """Map every file under /verif/go/<cmd>/ to /repo/zz_verif/cmd/<cmd>/ (add-only)."""
+def overlay_file(scratch, only=None, name="overlay.json"):
+    """Map every file under /verif/go/<cmd>/ to /repo/zz_verif/cmd/<cmd>/ (add-only).  `only`: restrict the
+    files of go/vcorr and of the go/pkg_* seams to this set of source paths (reduced build, see go_build)."""
     m = {}
     for d in sorted(glob.glob(os.path.join(VERIF, "go", "*"))):
         if not os.path.isdir(d):
@@ -54,8 +55,11 @@ def overlay_file(scratch):
                     dst = os.path.join(REPO, cmd[4:].replace("__", "/"), rel, f)
                 else:
                     dst = os.path.join(REPO, "zz_verif", "cmd", cmd, rel, f)
-                m[os.path.normpath(dst)] = os.path.join(root, f)
-    p = os.path.join(scratch, "overlay.json")
+                src = os.path.join(root, f)
+                if only is not None and (cmd == "vcorr" or cmd.startswith("pkg_")) and src not in only:
+                    continue
+                m[os.path.normpath(dst)] = src
+    p = os.path.join(scratch, name)
     with open(p, "w") as fh:
         json.dump({"Replace": m}, fh)
     return p
@@ -74,9 +78,76 @@ def go_build(ctx, cmd, race=False):
     args.append("./zz_verif/cmd/" + cmd)
     r = subprocess.run(args, cwd=REPO, env=GOENV, capture_output=True, text=True)
     if r.returncode != 0:
+        if cmd == "vcorr":
+            red = reduced_vcorr_build(ctx, race, out)
+            if red is not None:
+                ctx.bins[key] = out
+                return out, ""
         return None, r.stdout + r.stderr
     ctx.bins[key] = out
     return out, ""
+
+
+def needed_components(prop):
+    """line-protocol components this property's check drives: its configured components and whatever its corpus uses"""
+    import props
+    cfg = props.PROPS.get(prop, {})
+    comps = {c["c"] for c in cfg.get("components", [])} | set(cfg.get("uses_components", []))
+    for f in glob.glob(os.path.join(VERIF, "corpus", prop, "*.ops")):
+        with open(f) as fh:
+            for l in fh:
+                if l.strip() and not l.startswith("#"):
+                    comps.add(l.split()[0])
+    return comps
+
+
+def reduced_vcorr_build(ctx, race, out):
+    """The harness binary holds every component, and the add-only seam files of go/pkg_* reach into unexported
+    parts of several packages.  A change to the repository that no longer compiles with ONE seam (say a changed
+    signature of an unexported function of coalesce) must not raise an alarm for properties whose check never
+    touches that package: build the harness again from just the files this property's components need — their
+    own files plus, found from the compiler's `undefined` errors, the files that define what they refer to.
+    If that builds, the check goes on with it; if a file the property does need is the one that does not
+    compile, the build failure stands (the tie of this property is broken)."""
+    comps = needed_components(ctx.prop)
+    if not comps:
+        return None
+    vdir = os.path.join(VERIF, "go", "vcorr")
+    allv = sorted(glob.glob(os.path.join(vdir, "*.go")))
+    seams = sorted(glob.glob(os.path.join(VERIF, "go", "pkg_*", "**", "*.go"), recursive=True))
+    only = {os.path.join(vdir, "main.go")}
+    for f in allv:
+        b = os.path.basename(f)[:-3]
+        if b in comps or b.split("_")[0] in comps:
+            only.add(f)
+    srcs = {}
+    for f in allv + seams:
+        with open(f) as fh:
+            srcs[f] = fh.read()
+
+    def definers(name):
+        pat = re.compile(r"^(?:func\s+(?:\([^)]*\)\s*)?%s\b|type\s+%s\b|var\s+%s\b|const\s+%s\b|\t%s\s+=|\t%s\s+[\w\[\]\*\.]+\s*(?:=|$))"
+                         % ((re.escape(name),) * 6), re.M)
+        return [f for f, t in srcs.items() if f not in only and pat.search(t)]
+
+    for _ in range(14):
+        ov = overlay_file(ctx.scratch, only=only, name="overlay-reduced.json")
+        args = ["go", "build", "-overlay", ov, "-tags", "verif", "-o", out] + (["-race"] if race else []) + ["./zz_verif/cmd/vcorr"]
+        r = subprocess.run(args, cwd=REPO, env=GOENV, capture_output=True, text=True)
+        if r.returncode == 0:
+            log("  harness rebuilt from the files of %s only (a seam file this property does not use no longer compiles against the working tree)"
+                % ",".join(sorted(comps)))
+            ctx.cov.setdefault("reduced_harness", sorted(os.path.relpath(f, VERIF) for f in only))
+            return out
+        txt = r.stdout + r.stderr
+        names = set(re.findall(r"undefined: (?:\w+\.)?(\w+)", txt)) | set(re.findall(r"has no field or method (\w+)", txt))
+        add = set()
+        for n in names:
+            add.update(definers(n))
+        if not add:
+            return None
+        only |= add
+    return None
 
 
 def go_build_repo_cmd(ctx, pkg, name):
